@@ -38,7 +38,7 @@ structure HQ0 (cfg : Cfg) (G : Nat) (n : Net) (x y : Nat) (stx sty : NetStation)
   pbx : stx.s.pendingBytes = 0
   starts : ∀ t ∈ n.bus.txs, t.start ≤ tl
   seens : n.bus.seen.getD x 0 ≤ tl ∧ n.bus.seen.getD y 0 ≤ tl
-  rts : stx.s.ring.ts = stx.s.p.address
+  view : RingView [stx.s.p.address] stx.s.p.address stx.s.ring
 
 theorem mem_dropLast_cons {α : Type} (a t : α) (l : List α) (h : t ∈ l.dropLast) : t ∈ (a :: l).dropLast := by
   cases l with
@@ -111,7 +111,7 @@ theorem hq0_claimant {cfg : Cfg} {G : Nat} {n : Net} {x y : Nat} {stx sty : NetS
   cases hst0
   rw [hup] at hset
   have hsy : n'.bus.seen.getD y 0 = n.bus.seen.getD y 0 := by rw [hbus]; exact seen_set_other n.bus x y now hxy
-  refine ⟨n', _, hp, rfl, ⟨hS, h.stx_st, h.stx_gap, ?_, h.rsne, h.others, ?_, h.yx, ?_, ?_, ?_, ?_, ?_, ?_, ?_, ?_, h.rts⟩⟩
+  refine ⟨n', _, hp, rfl, ⟨hS, h.stx_st, h.stx_gap, ?_, h.rsne, h.others, ?_, h.yx, ?_, ?_, ?_, ?_, ?_, ?_, ?_, ?_, h.view⟩⟩
   · rw [hbus]
     exact ⟨h.logR.rate, h.logR.corrupt, h.logR.chained, h.logR.live, h.logR.own, h.logR.kinds⟩
   · rw [hset, List.getElem?_set_ne hxy]; exact h.gy
@@ -142,7 +142,7 @@ structure HQ1 (cfg : Cfg) (n : Net) (x y : Nat) (stx sty : NetStation) (r h1 : I
   pbx : stx.s.pendingBytes = 0
   starts : ∀ t ∈ n.bus.txs, t.start ≤ tl
   seens : n.bus.seen.getD x 0 ≤ tl ∧ n.bus.seen.getD y 0 ≤ tl
-  rts : stx.s.ring.ts = stx.s.p.address
+  view : RingView [stx.s.p.address] stx.s.p.address stx.s.ring
 
 /-- **Phase Q0, the listener is polled**: it consumes what has arrived; if the request has arrived completely it
 is registered (phase Q1), otherwise phase Q0 goes on. -/
@@ -220,7 +220,7 @@ theorem hq0_listener {cfg : Cfg} {G : Nat} {n : Net} {x y : Nat} {stx sty : NetS
     exact ⟨hsoloX, by rw [haddr]; exact h.stx_st, by rw [haddr]; exact h.stx_gap, hlogR', by rw [haddr]; exact hlast,
       by rw [haddr]; exact hoth, List.getElem?_set_self h.yl, h.yx, by simp only [List.length_set]; exact h.ys,
       by simp only [List.length_set]; exact h.yl, hX, hearly', by show c.s.p.rate = _ ∧ c.s.p.slotBits = _; rw [hp]; exact h.py,
-      h.pbx, fun t ht => Int.le_trans (h.starts t ht) htl, hseensNew, h.rts⟩
+      h.pbx, fun t ht => Int.le_trans (h.starts t ht) htl, hseensNew, h.view⟩
   rcases hres with hX | ⟨k, d, hk1, hdm, hfl, hlastd, hX⟩
   · exact .inl ⟨hd, dn, rs, _, stillQ0 hd dn rs _ hX h.rsne h.others hcrs hposrs, rfl⟩
   · by_cases hdr : rs.drop k = []
@@ -250,7 +250,7 @@ theorem hq0_listener {cfg : Cfg} {G : Nat} {n : Net} {x y : Nat} {stx sty : NetS
         have := x8; simpa using this
       refine ⟨⟨hsoloX, by rw [haddr]; exact h.stx_st, by rw [haddr]; exact h.stx_gap, ?_, x15, h.yx, ?_,
         (by rw [seen_set_self _ _ _ h.ys]; omega), ?_, ?_, h.pbx,
-        fun t ht => Int.le_trans (h.starts t ht) htl, hseensNew, h.rts⟩, by rw [x7, hdm, hrsk]⟩
+        fun t ht => Int.le_trans (h.starts t ht) htl, hseensNew, h.view⟩, by rw [x7, hdm, hrsk]⟩
       · refine ⟨hs.rate, hs.drops, hs.corrupt, hs.chained, hs.live, hs.pos, ?_, ?_, by simp only [List.length_set]; exact h.yl,
           by simp only [List.length_set]; exact h.ys, List.getElem?_set_self h.yl, x1, x2, x3, x4, ?_, x13,
           by show c.s.p.rate = _; rw [hp]; exact h.py.1, by show c.s.p.slotBits = _; rw [hp]; exact h.py.2⟩
@@ -361,7 +361,7 @@ theorem hq1_claimant {cfg : Cfg} {n : Net} {x y : Nat} {stx sty : NetStation} {r
   rw [hup] at hset
   have hsy : n'.bus.seen.getD y 0 = n.bus.seen.getD y 0 := by rw [hbus]; exact seen_set_other n.bus x y now hxy
   have hsY := h.soloY
-  refine ⟨n', _, hp, rfl, ⟨hS, h.stx_st, h.stx_gap, ?_, h.sty_st, h.yx, h.reg, by rw [hsy]; exact hyw, h.tto, ?_, h.pbx, ?_, ?_, h.rts⟩⟩
+  refine ⟨n', _, hp, rfl, ⟨hS, h.stx_st, h.stx_gap, ?_, h.sty_st, h.yx, h.reg, by rw [hsy]; exact hyw, h.tto, ?_, h.pbx, ?_, ?_, h.view⟩⟩
   · exact hsY.otherPoll x now stx hxy hbus hset
   · rw [hbus]; exact h.allx
   · rw [hbus]; exact fun t ht => Int.le_trans (h.starts t ht) htl
@@ -400,7 +400,7 @@ structure HQ2 (cfg : Cfg) (n : Net) (x y : Nat) (stx sty : NetStation) (r q : In
     lX + (cfg.slot : Nat)
   starts : ∀ t ∈ n.bus.txs, t.start ≤ tl
   seens : n.bus.seen.getD x 0 ≤ tl ∧ n.bus.seen.getD y 0 ≤ tl
-  rts : stx.s.ring.ts = stx.s.p.address
+  view : RingView [stx.s.p.address] stx.s.p.address stx.s.ring
 
 theorem tokenLost_false (s : Station) (now l : Int) (hl : s.lastBusActivity = some l) (h1 : l ≤ now)
     (h2 : now < l + (s.p.tokenLostTimeout : Nat)) : ¬ TokenLost s now := by
@@ -459,7 +459,7 @@ theorem hq1_listener {cfg : Cfg} {n : Net} {x y : Nat} {stx sty : NetStation} {r
     exact ⟨hs.otherPoll y now sty h.yx hbus hset, h.stx_st, h.stx_gap, hS, h.sty_st, h.yx, h.reg,
       by rw [hseen]; omega, h.tto, by rw [hbus]; exact h.allx, h.pbx,
       by rw [hbus]; exact fun t ht => Int.le_trans (h.starts t ht) htl,
-      by rw [hseen, hsxx]; exact ⟨Int.le_trans h.seens.1 htl, Int.le_refl _⟩, h.rts⟩
+      by rw [hseen, hsxx]; exact ⟨Int.le_trans h.seens.1 htl, Int.le_refl _⟩, h.view⟩
   · -- the reply
     have hdr : dispatch { s := sty.s, apps := sty.apps, rx := [] } now = .ok
         { s := { (markTx (StationGap.stamped sty.s now) now 6) with
@@ -515,7 +515,7 @@ theorem hq1_listener {cfg : Cfg} {n : Net} {x y : Nat} {stx sty : NetStation} {r
       by rw [hset, List.getElem?_set_ne h.yx]; exact hs.gx, by rw [hset, List.length_set]; exact hs.xl,
       by rw [hbus, e4]; simp only [List.length_set]; exact hs.xs,
       ⟨hs.online, hs.alive, hs.inv, hs.son, hs.prate, hs.pslot⟩, by rw [haddrY]; exact h.stx_st, by rw [haddrY]; exact h.stx_gap,
-      h.yx, ?_, ?_, ?_, ?_, hs.stamp, Int.le_refl _, by omega, by omega, .inl rfl, ?_, ?_, ?_, h.rts⟩
+      h.yx, ?_, ?_, ?_, ?_, hs.stamp, Int.le_refl _, by omega, by omega, .inl rfl, ?_, ?_, ?_, h.view⟩
     · rw [haddrY]
       refine ⟨old', by rw [hbus, e1]; rfl, ?_⟩
       intro o ho
@@ -605,7 +605,7 @@ theorem hq2_listener {cfg : Cfg} {n : Net} {x y : Nat} {stx sty : NetStation} {r
     by rw [hbus]; exact h.split, by rw [hsxx]; exact h.rxX, by rw [hsxx]; exact h.pendX, by rw [hsxx]; exact h.headX,
     h.stampX, h.lXge, h.qlate, h.qearly, by rw [hsxx]; exact h.pbok, by rw [hsxx]; exact h.slotok,
     by rw [hbus]; exact fun t ht => Int.le_trans (h.starts t ht) htl,
-    by rw [hseen, hsxx]; exact ⟨Int.le_trans h.seens.1 htl, Int.le_refl _⟩, h.rts⟩
+    by rw [hseen, hsxx]; exact ⟨Int.le_trans h.seens.1 htl, Int.le_refl _⟩, h.view⟩
 
 /-- **Reply received**: the claimant `x` has consumed the (non-admitting) reply and goes on with its GAP scan; the
 listener `y` listens again; both are up to date with the log, whose last entry is the reply. -/
@@ -618,7 +618,8 @@ structure HQ3 (cfg : Cfg) (n : Net) (x y : Nat) (stx sty : NetStation) (q lx : I
   yx : y ≠ x
   last : ∃ dnx, n.bus.txs = dnx ++ [rpTx y stx.s.p.address sty.s.p.address state q] ∧
     (∀ o ∈ dnx, o.sender = x) ∧
-    (Admits state .ok → stx.s.ring.ns = sty.s.p.address ∧ stx.s.ring.isActive sty.s.p.address = true)
+    (Admits state .ok → stx.s.ring.ns = sty.s.p.address ∧ stx.s.ring.isActive sty.s.p.address = true ∧
+      ∀ M', IsRing M' → (∀ z, z ∈ M' ↔ z = sty.s.p.address ∨ z = stx.s.p.address) → RingView M' stx.s.p.address stx.s.ring)
 
 /-- The claimant's context after consuming a non-admitting reply. -/
 def replyCtxG (s : Station) (apps : Apps) (now : Int) (rg : TokenRing) : Ctx :=
@@ -782,7 +783,7 @@ theorem hq2_claimant {cfg : Cfg} {n : Net} {x y : Nat} {stx sty : NetStation} {r
       by show (checkBusActivity stx.s now _).gap = _; rw [f5]; exact h.stx_gap, h.yx,
       ⟨dnx, by rw [haddr, hbus]; exact htxs0, hdnx⟩, ?_, ?_, ?_, hl1, hl1ge, h.qlate, h.qearly, .inr (by rw [hseen]; exact hle1), ?_,
       by rw [hbus]; exact fun t ht => Int.le_trans (h.starts t ht) htl,
-      by rw [hseen, hsy]; exact ⟨Int.le_refl _, Int.le_trans h.seens.2 htl⟩, (by show (checkBusActivity stx.s now _).ring.ts = (checkBusActivity stx.s now _).p.address; rw [f3, f2]; exact h.rts)⟩
+      by rw [hseen, hsy]; exact ⟨Int.le_refl _, Int.le_trans h.seens.2 htl⟩, (by show RingView [(checkBusActivity stx.s now _).p.address] (checkBusActivity stx.s now _).p.address (checkBusActivity stx.s now _).ring; rw [f3, f2]; exact h.view)⟩
     · rw [haddr, hseen, ← hrp]; rfl
     · rw [haddr, hseen, ← hrp]
       show (checkBusActivity stx.s now _).pendingBytes ≤ _
@@ -803,7 +804,8 @@ theorem hq2_claimant {cfg : Cfg} {n : Net} {x y : Nat} {stx sty : NetStation} {r
     have hqe : q + ((cfg.ce 5 : Nat) : Int) ≤ now := by
       have := (cvis_spec cfg rp now 5 (by rw [hlen]; omega)).1 (by omega)
       omega
-    obtain ⟨rg, hrgA, hd⟩ : ∃ rg : TokenRing, (Admits state .ok → rg.ns = sty.s.p.address ∧ rg.isActive sty.s.p.address = true) ∧
+    obtain ⟨rg, hrgA, hd⟩ : ∃ rg : TokenRing, (Admits state .ok → rg.ns = sty.s.p.address ∧ rg.isActive sty.s.p.address = true ∧
+          ∀ M', IsRing M' → (∀ z, z ∈ M' ↔ z = sty.s.p.address ∨ z = stx.s.p.address) → RingView M' stx.s.p.address rg) ∧
         dispatch { s := checkBusActivity stx.s now (arrived cfg [rp] now).length, apps := stx.apps, rx := arrived cfg [rp] now } now = .ok (replyCtxG (checkBusActivity stx.s now (arrived cfg [rp] now).length) stx.apps now rg) := by
       have hstC : AwaitSt (checkBusActivity stx.s now (arrived cfg [rp] now).length).st sty.s.p.address := by rw [f1]; exact h.stx_st
       have hgC : (checkBusActivity stx.s now (arrived cfg [rp] now).length).gap = .doPoll sty.s.p.address := by rw [f5]; exact h.stx_gap
@@ -813,9 +815,18 @@ theorem hq2_claimant {cfg : Cfg} {n : Net} {x y : Nat} {stx sty : NetStation} {r
         rw [f2]; exact replyOf_rpTel _ _ state (by omega) (by omega)
       by_cases hadm : Admits state .ok
       · obtain ⟨rr, h1, h2, h3, h4, h5, h6⟩ := await_dispatch_admit { s := checkBusActivity stx.s now (arrived cfg [rp] now).length, apps := stx.apps, rx := arrived cfg [rp] now } now sty.s.p.address [] (rpTel stx.s.p.address sty.s.p.address state) _ true [] state hstC hgC hneC hrec hrC hadm.2 (by omega)
-          (by show (checkBusActivity stx.s now _).ring.ts = (checkBusActivity stx.s now _).p.address; rw [f3, f2]; exact h.rts)
+          (by show (checkBusActivity stx.s now _).ring.ts = (checkBusActivity stx.s now _).p.address; rw [f3, f2]; exact h.view.ts)
           (by show (checkBusActivity stx.s now _).p.address < 128; rw [f2]; omega)
-        exact ⟨rr, fun _ => ⟨h2, h5⟩, h6⟩
+        have h1' : (checkBusActivity stx.s now (arrived cfg [rp] now).length).ring.setNextStation sty.s.p.address = some rr := h1
+        rw [f3] at h1'
+        refine ⟨rr, fun _ => ⟨h2, h5, ?_⟩, h6⟩
+        intro M' hM' hmem
+        have hbt : Between stx.s.p.address (cycSucc stx.s.p.address [stx.s.p.address]) sty.s.p.address := by
+          rw [cycSucc_single]; unfold Between; exact ⟨hneA, by simp⟩
+        have vk := AbstractRing.viewOk_setNext [stx.s.p.address] M' stx.s.p.address sty.s.p.address stx.s.ring rr
+          ⟨h.view.ts, h.view.valid, h.view.las, h.view.nbr⟩ (List.mem_singleton.2 rfl) hbt
+          (fun z => by rw [hmem z]; simp) h1'
+        exact ⟨hM', (hmem _).2 (.inr rfl), vk.ts, vk.valid, vk.las, vk.nbr⟩
       · refine ⟨(checkBusActivity stx.s now (arrived cfg [rp] now).length).ring, fun hh => absurd hh hadm, ?_⟩
         exact await_dispatch_reply { s := checkBusActivity stx.s now (arrived cfg [rp] now).length, apps := stx.apps, rx := arrived cfg [rp] now } now sty.s.p.address [] (rpTel stx.s.p.address sty.s.p.address state) _ true [] state .ok hstC hgC hneC hrec hrC hadm
     obtain ⟨cR, hdr, k1, k2, k3, k4, k5, k6, k7, k8⟩ : ∃ cR : Ctx, dispatch { s := checkBusActivity stx.s now (arrived cfg [rp] now).length, apps := stx.apps, rx := arrived cfg [rp] now } now = .ok cR ∧ cR.s.online = true ∧ cR.s.p = stx.s.p ∧ cR.rx = [] ∧
@@ -851,7 +862,9 @@ theorem hq2_claimant {cfg : Cfg} {n : Net} {x y : Nat} {stx sty : NetStation} {r
       · exact .inr rfl
     refine ⟨?_, hsY.otherPoll x now _ hxy hbus hstn, hst3, by show cR.s.gap = _; rw [k7]; exact h.stx_gap, h.sty_st, h.yx,
       ⟨dnx, by rw [haddr, hbus]; exact htxs0, fun o ho => (hdnx o ho).1,
-        fun ha => by show cR.s.ring.ns = _ ∧ cR.s.ring.isActive _ = true; rw [k8]; exact hrgA ha⟩⟩
+        fun ha => by
+          show cR.s.ring.ns = _ ∧ cR.s.ring.isActive _ = true ∧ ∀ M', IsRing M' → _ → RingView M' (upSt stx cR).s.p.address cR.s.ring
+          rw [k8, haddr]; exact hrgA ha⟩⟩
     refine ⟨by rw [hbus]; exact hsY.rate, by rw [hbus]; exact hsY.drops, by rw [hbus]; exact hsY.corrupt,
       by rw [hbus]; exact hsY.chained, by rw [hbus]; exact hsY.live, by rw [hbus]; exact hsY.pos, ?_, ?_,
       by rw [hstn, List.length_set]; exact h.xl, by rw [hbus]; simp only [List.length_set]; exact h.xs,
